@@ -51,6 +51,30 @@ class P(framework.Prop):
             if c == 0:
                 c = 1
             out.append("slice %s %s %s %d" % (arr, wire.optint(bound()), wire.optint(bound()), c))
+        # the same through compile + search: every spelling of the bracket (omitted parts, explicit zeros, both signs), at top level,
+        # after a field and inside a projection
+        def part(x):
+            return "" if x is None else str(x)
+        for n in range(0, (4 if tier == "quick" else 6) + 1):
+            arr = list(range(n))
+            bnds = [None] + list(range(-n - 1, n + 2))
+            for a in bnds:
+                for b in bnds:
+                    for c in [None, 1, -1, 2, -2, 3, -3]:
+                        if tier == "quick" and rng.random() < 0.5 and not (a in (0, None) or b in (0, None)):
+                            continue
+                        br = "[%s:%s%s]" % (part(a), part(b), "" if c is None and rng.random() < 0.5 else ":" + part(c))
+                        out.append("search %s %s" % (wire.s(br), wire.val(arr)))
+                        if rng.random() < 0.25:
+                            out.append("search %s %s" % (wire.s("a" + br), wire.val({"a": arr})))
+                        if rng.random() < 0.15:
+                            out.append("search %s %s" % (wire.s("[*]" + br), wire.val([arr, arr[::-1], "x"])))
+                        if rng.random() < 0.1:
+                            out.append("search %s %s" % (wire.s(br + br), wire.val(arr + arr)))
+            for i in range(-n - 2, n + 3):
+                out.append("search %s %s" % (wire.s("[%d]" % i), wire.val(arr)))
+                out.append("search %s %s" % (wire.s("a[%d]" % i), wire.val({"a": arr})))
+                out.append("search %s %s" % (wire.s("[*][%d]" % i), wire.val([arr, arr[::-1]])))
         for v in ["n", "t", 'u5', '"97,98', "{ }", '{ "97 [ u1 ] }']:
             out.append("slice %s 0 1 1" % v)
             out.append("slice %s _ _ -1" % v)
@@ -70,6 +94,27 @@ class P(framework.Prop):
             exp = "OK " + wire.val(arr[slice(a, b, c)])
             if iobs != exp:
                 return "Python list[%s:%s:%s] gives %s, implementation gives %s" % (a, b, c, exp, iobs)
+        if t[0] == "search":
+            import re as _re
+            try:
+                e = wire.uns(t[1]) if hasattr(wire, "uns") else None
+            except Exception:
+                e = None
+            m = _re.match(r"^\[(-?\d*):(-?\d*)(?::(-?\d*))?\]$", e or "")
+            if m and len(t) > 2 and t[2] == "[":
+                arr, _i = wire.unval(t, 2)
+                a, b, c = [None if x in ("", None) else int(x) for x in m.groups()]
+                if c != 0:
+                    exp = "OK " + wire.val(arr[slice(a, b, c)])
+                    if iobs != exp:
+                        return "Python list[%s:%s:%s] gives %s, the expression %s gives %s" % (a, b, c, exp, e, iobs)
+            m = _re.match(r"^\[(-?\d+)\]$", e or "")
+            if m and len(t) > 2 and t[2] == "[":
+                arr, _i = wire.unval(t, 2)
+                n = int(m.group(1))
+                exp = "OK " + (wire.val(arr[n]) if -len(arr) <= n < len(arr) else "n")
+                if iobs != exp:
+                    return "Python list[%d] gives %s, the expression %s gives %s" % (n, exp, e, iobs)
         if t[0] == "index" and t[1] == "[":
             arr, i = wire.unval(t, 1)
             n = int(t[i])
